@@ -306,9 +306,13 @@ impl StateModel {
         distance: &Distance,
         from_unit: &DistanceUnit,
     ) -> Result<(), StateModelError> {
-        let prev_distance = self.get_distance(state, name, from_unit)?;
-        let next_distance = prev_distance + *distance;
-        self.set_distance(state, name, &next_distance, from_unit)
+        // accumulate in the feature's own unit: converting the accumulated value to the caller's
+        // unit and back on every call compounds the rounding of inexact conversion factors
+        let feature = self.get_feature(name)?;
+        let to_unit = feature.get_distance_unit()?;
+        let delta: StateVar = from_unit.convert(distance, &to_unit).into();
+        let prev = self.get_state_variable(state, name)?;
+        self.update_state(state, name, &(prev + delta), UpdateOperation::Replace)
     }
 
     /// adds a time value with time unit to this feature vector
@@ -319,9 +323,13 @@ impl StateModel {
         time: &Time,
         from_unit: &TimeUnit,
     ) -> Result<(), StateModelError> {
-        let prev_time = self.get_time(state, name, from_unit)?;
-        let next_time = prev_time + *time;
-        self.set_time(state, name, &next_time, from_unit)
+        // accumulate in the feature's own unit: converting the accumulated value to the caller's
+        // unit and back on every call compounds the rounding of inexact conversion factors
+        let feature = self.get_feature(name)?;
+        let to_unit = feature.get_time_unit()?;
+        let delta: StateVar = from_unit.convert(time, &to_unit).into();
+        let prev = self.get_state_variable(state, name)?;
+        self.update_state(state, name, &(prev + delta), UpdateOperation::Replace)
     }
 
     /// adds a energy value with energy unit to this feature vector
@@ -332,9 +340,13 @@ impl StateModel {
         energy: &Energy,
         from_unit: &EnergyUnit,
     ) -> Result<(), StateModelError> {
-        let prev_energy = self.get_energy(state, name, from_unit)?;
-        let next_energy = prev_energy + *energy;
-        self.set_energy(state, name, &next_energy, from_unit)
+        // accumulate in the feature's own unit: converting the accumulated value to the caller's
+        // unit and back on every call compounds the rounding of inexact conversion factors
+        let feature = self.get_feature(name)?;
+        let to_unit = feature.get_energy_unit()?;
+        let delta: StateVar = from_unit.convert(energy, &to_unit).into();
+        let prev = self.get_state_variable(state, name)?;
+        self.update_state(state, name, &(prev + delta), UpdateOperation::Replace)
     }
 
     pub fn set_distance(
